@@ -122,6 +122,8 @@ class ServerCapabilitiesBuilder:
             types.TEXT_DOCUMENT_COMPLETION, default=types.CompletionOptions()
         )
         if value is not None:
+            if types.COMPLETION_ITEM_RESOLVE in self.features:
+                value.resolve_provider = True
             self.server_cap.completion_provider = value
         return self
 
@@ -199,6 +201,10 @@ class ServerCapabilitiesBuilder:
     def _with_code_action(self):
         value = self._provider_options(types.TEXT_DOCUMENT_CODE_ACTION, default=True)
         if value is not None:
+            if types.CODE_ACTION_RESOLVE in self.features:
+                if value is True:
+                    value = types.CodeActionOptions()
+                value.resolve_provider = True
             self.server_cap.code_action_provider = value
         return self
 
